@@ -50,7 +50,7 @@ impl Property for C16 {
         "C16"
     }
     fn rule(&self) -> String {
-        "Reference-speller oracle. Generated: (language, shape, k in 0..=6, n in [1,10^9), variant choice bytes, zero-word selectors, prefix, suffix). Shape 0: k zero words followed by spell(n): text2digits == Ok('0'^k ++ decimal(n)); in a sentence at threshold 0 exactly one occurrence covering the whole phrase with that text and value n; rewrite == prefix text suffix. Shape 1: spell(n) followed by a zero word is rewritten 'n 0' (a zero after a non-zero number starts a new numeral). Shape 2: a lone zero word is the numeral 0 (validated and rewritten). Enumerated: k in 0..=6 x every n < 2000 and every g*1000^j (g in the boundary pool, j in 1..=2), canonical spelling, per language; shape 1 for every n < 2000. Non-trivial = distinct shape-0 cases with k >= 1 whose first number word is scale-sensitive (one/un/een..., hundred, thousand ...), plus all shape-1 cases.".into()
+        "Reference-speller oracle. Generated: (language, shape, k in 0..=6, n in [1,10^9) (one case in four up to 10^12), variant choice bytes, zero-word selectors, prefix, suffix). Shape 0: k zero words followed by spell(n): text2digits == Ok('0'^k ++ decimal(n)); in a sentence at threshold 0 exactly one occurrence covering the whole phrase with that text and value n; rewrite == prefix text suffix. Shape 1: spell(n) followed by a zero word is rewritten 'n 0' (a zero after a non-zero number starts a new numeral). Shape 2: a lone zero word is the numeral 0 (validated and rewritten). Enumerated: k in 0..=6 x every n < 2000 and every g*1000^j (g in the boundary pool, j in 1..=2), canonical spelling, per language; shape 1 for every n < 2000. Non-trivial = distinct shape-0 cases with k >= 1 whose first number word is scale-sensitive (one/un/een..., hundred, thousand ...), plus all shape-1 cases.".into()
     }
     fn assumptions(&self) -> Vec<String> {
         vec!["en `o` is used as a leading zero only with k >= 1 followed by a number word (C18 makes it a zero there)".into()]
@@ -65,7 +65,7 @@ impl Property for C16 {
                 (
                     prop_oneof![8 => Just(0u8), 3 => Just(1u8), 1 => Just(2u8)],
                     0u8..=6,
-                    num_strategy(1_000_000_000),
+                    prop_oneof![3 => num_strategy(1_000_000_000), 1 => num_strategy(1_000_000_000_000)],
                     choices(),
                     proptest::collection::vec(any::<u8>(), 0..7),
                     prop_oneof![1 => Just((String::new(), String::new())), 2 => context(lang, true)],
@@ -80,7 +80,7 @@ impl Property for C16 {
     fn enumerate(&self, _tier: Tier, shard: usize, nshards: usize, emit: &mut Emit<Case>) {
         let mut ns: Vec<u64> = (1..2000).collect();
         for g in POOL {
-            for j in 1..=2u32 {
+            for j in 1..=3u32 {
                 if g > 0 {
                     ns.push(g as u64 * 1000u64.pow(j));
                 }
